@@ -34,6 +34,9 @@ type concFixture struct {
 // a chain root -> ... -> invoker whose delegations carry metadata and policies, and an invocation whose
 // arguments and metadata were inserted in the given (unsorted) key order
 // the construction is a function of (L, ks): two calls give two identical, independent fixtures
+// concSpare: the next fixtures hold a constructed leaf delegation whose policy slice has spare capacity
+var concSpare bool
+
 func mkConcFixture(keys []principal, L int, ks []string) *concFixture {
 	f := &concFixture{ld: mapLoader{}, keys: keys}
 	var prf []cid.Cid
@@ -74,11 +77,18 @@ func mkConcFixture(keys []principal, L int, ks []string) *concFixture {
 		for _, mk := range ks {
 			opts = append(opts, delegation.WithMeta(mk, "v"))
 		}
-		d, err := delegation.New(iss.did, aud.did, command.Command("/"), polOf((len(ks)+3*k)%8, "a"), opts...)
+		pol := polOf((len(ks)+3*k)%8, "a")
+		if k == 0 && concSpare {
+			// a leaf delegation built in Go (not decoded) from a policy slice with room behind its length
+			pol = append(make(policy.Policy, 0, len(pol)+6), pol...)
+		}
+		d, err := delegation.New(iss.did, aud.did, command.Command("/"), pol, opts...)
 		if err != nil {
 			panic(err)
 		}
-		d = decoded(d, &iss)
+		if !(k == 0 && concSpare) {
+			d = decoded(d, &iss)
+		}
 		ci := fakeCid(100 + k)
 		prf = append(prf, ci)
 		f.dlgs = append(f.dlgs, d)
@@ -303,6 +313,7 @@ func genConc(c *Ctx) {
 			ks[i] = fmt.Sprintf("%s%d", c.R.Str("zyxwvutsrqponmlkjihgfedcba", 3), i)
 		}
 		kk := append(append([]principal{}, keys...), keys[0], keys[0])
+		concSpare = r%2 == 1
 		fx := mkConcFixture(kk, L, ks)
 		// 1. each operation alone: the observable state is unchanged, the result repeatable
 		seq := map[string]string{}
